@@ -164,7 +164,7 @@ def scripted(env: Env, hid: str, script: list[Outcome], *, cursor: str | None = 
                 # '$rv' stands for the version of the view the handler was given (a note that differs from event to event)
                 rv_now = (body or {}).get('metadata', {}).get('resourceVersion') if body is not None else None
                 foreign_now = ((body or {}).get('status') or {}).get('foreign') if body is not None else None
-                _deep_update(kw['patch'], json.loads(json.dumps(out.patch).replace('$rv', str(rv_now)).replace('$foreign', str(foreign_now))))
+                _deep_update(kw['patch'], json.loads(json.dumps(out.patch).replace('$rv', str(rv_now)).replace('$foreign', str(foreign_now)).replace('$uid', str((body or {}).get('metadata', {}).get('uid') if body is not None else None))))
             if out.stamp and 'patch' in kw:
                 import functools
                 _deep_update(kw['patch'], {'status': {f'p_{hid}': n}})
